@@ -77,6 +77,7 @@ class C08(vlib.Check):
                     "fps": fps, "build": build}
             if t == "rt":
                 case["how"] = rng.choice(["savez", "savez", "save.fps.bz2", "save.fps.gz", "save.fps"])
+                case["basename"] = case["how"] == "savez" and rng.random() < 0.25
                 case["cycles"] = rng.randint(1, 3)
             else:
                 case["kind"] = "bit"
@@ -254,7 +255,14 @@ class C08(vlib.Check):
         how = case["how"]
         if how == "savez":
             p = os.path.join(self.tmp(), "c%d_%d.fpz" % (id(case) % 99999, k))
-            db.savez(p)
+            if case.get("basename"):
+                # "filename or basename if extension is not '.fpz'": the file is written as <basename>.fpz
+                db.savez(p[:-4])
+                if os.path.exists(p[:-4]) and not os.path.exists(p):
+                    os.remove(p[:-4])
+                    raise FileNotFoundError("savez(<basename>) did not write <basename>.fpz")
+            else:
+                db.savez(p)
         else:
             p = os.path.join(self.tmp(), "c%d_%d%s" % (id(case) % 99999, k, how[4:]))
             with warnings.catch_warnings():
